@@ -79,9 +79,12 @@ var gtBigint = map[string]struct {
 }
 
 // math/big value-producing methods (the receiver's old value is irrelevant) and observers
-var gtBigValue = map[string]bool{"Add": true, "Sub": true, "Mul": true, "Or": true, "Lsh": true, "Rsh": true}
+var gtBigValue = map[string]bool{"Add": true, "Sub": true, "Mul": true, "Or": true, "Lsh": true, "Rsh": true, "Set": true}
 
 func gtBigArgs(m string) []string {
+	if m == "Set" {
+		return []string{"*big.Int"}
+	}
 	if m == "Lsh" || m == "Rsh" {
 		return []string{"*big.Int", "uint"}
 	}
@@ -408,6 +411,11 @@ func (t *gotr) call(v *ast.CallExpr) (string, string) {
 					return "(goErr " + lit.Value + " [" + strings.Join(as, ", ") + "])", "error"
 				}
 			}
+		}
+		if src == "bigints.ContainsSorted" && len(v.Args) == 2 {
+			// sort.Search with a closure: a primitive (the binary-search model of AC/Helpers.lean)
+			a := t.args(v, []string{"*big.Int", "[]*big.Int"})
+			return "(bigintsContainsSorted " + strings.Join(a, " ") + ")", "bool"
 		}
 		if x, ok := f.X.(*ast.Ident); ok && x.Name == "bigints" {
 			if g, ok := t.funcs["bigints."+f.Sel.Name]; ok {
